@@ -277,7 +277,7 @@ func (r *DeviceAuthorizationState) GetAMR() []string {
 
 func (r *DeviceAuthorizationState) GetAudience() []string {
 	if !slices.Contains(r.Audience, r.ClientID) {
-		r.Audience = append(r.Audience, r.ClientID)
+		return append(slices.Clone(r.Audience), r.ClientID)
 	}
 	return r.Audience
 }
